@@ -24,3 +24,5 @@ open Bpmn.Props.C05 Bpmn.Props.EngineCurrent
 #print axioms first_activation_view
 #print axioms C05_counterexample_stale_view
 #print axioms Bpmn.Props.EngineSteps.incl_step_holds
+#print axioms evalFlows_keys
+#print axioms evalFlows_length
